@@ -24,6 +24,10 @@ ExportInvR ==
 ExportInvF ==
   (Final /\ d.nextVal > 1) => PrintT(<<"CASE", ToJson([script |-> script, hist |-> hist, elog |-> elog])>>)
 
+ExportInvP ==
+  (Final /\ \E a \in DOMAIN d.actors : d.actors[a].pn # "" /\ d.actors[a].bits = "zombie") =>
+     PrintT(<<"CASE", ToJson([script |-> script, hist |-> hist, elog |-> elog])>>)
+
 Ops_All == {"defer", "lazy", "idle", "after", "acreate", "call", "pcall", "callown", "stop", "fail",
             "owndrop", "ownclone", "keepown", "kill", "mkret", "ret", "retdrop", "keepret", "zombie",
             "run", "dropstakker"}
@@ -61,6 +65,10 @@ Ops_FMeth == {"stop", "fwd", "call"}
 Ops_KTop == {"acreate", "dkill", "kill", "call", "owndrop", "run", "zombie"}
 Ops_KBody == {"dkill", "call"}
 Ops_KMeth == {"stop", "fail", "dkill"}
+\* failure passed up: children whose notifier is ret_fail!/ret_failthru! of their parent
+Ops_PTop == {"acreate", "call", "owndrop", "kill", "run", "slablen", "zombie"}
+Ops_PBody == {"call"}
+Ops_PMeth == {"acreate", "screate", "pnotify", "stop", "fail", "call"}
 Ops_ATopY == Ops_ATopAll \cup {"query"}
 Ops_ABodyY == Ops_ABody \cup {"query"}
 =============================================================================
